@@ -317,11 +317,11 @@ theorem setN_stored (src : Src) (nb : Bool) (sv : Val) (hsrc : SrcWT src = true)
             cases hfl : r.flow with
             | cont => exact tail
             | ret =>
-              have hcfg : GenCfg.fixed.setLostUpdate = false := rfl
+              have hcfg : GenCfg.fixed.setScalarElemLost = false := rfl
               simp only [hcfg, Bool.not_false, Bool.or_true, if_true]
               exact tail
             | err =>
-              have hcfg : GenCfg.fixed.setLostUpdate = false := rfl
+              have hcfg : GenCfg.fixed.setScalarElemLost = false := rfl
               simp only [hcfg, Bool.not_false, Bool.or_true, if_true]
               exact tail
             | panic => exact absurd hfl fr.1
